@@ -46,7 +46,7 @@ def plans_for(trace, reads, tier, rng, read_log=()):
     probes = [i for i, (_k, ph) in enumerate(read_log) if b"/files/" in bytes.fromhex(ph) or b"/info/" in bytes.fromhex(ph)]
     idxs = sorted(set(idxs) | set(probes[:40]))
     for i in idxs:
-        for e in ("EACCES", "EIO", "ELOOP", "ENOENT"):
+        for e in ("EACCES", "EIO", "ELOOP"):      # (not ENOENT: "no such entry" for an entry that is there is a lie no program can see through)
             plans.append({"read_faults": [{"index": i, "errno": e}]})
     for kind in ("stat", "lstat"):
         plans.append({"read_faults": [{"kind": kind, "persistent": True, "errno": "EACCES"}]})
@@ -54,6 +54,8 @@ def plans_for(trace, reads, tier, rng, read_log=()):
     for nth in range(0, 6):
         for e in ("ENOSPC", "EPIPE"):
             plans.append({"stderr_fault": {"nth": nth, "errno": e}})
+        plans.append({"stderr_fault": {"nth": nth, "errno": "EPIPE", "pipe": True}})      # a real pipe without reader
+    plans.append({"stderr_fault": {"nth": 0, "errno": "EPIPE", "closed": True}})           # 2>&-: no stderr at all
     if tier == "thorough":
         singles = [(k, n) for (k, n) in seen]
         extra = [("unlink", 0), ("rmdir", 0), ("createTrunc", 0), ("symlink", 0)]
